@@ -17,6 +17,8 @@ class TCase:
         self.ops = []      # (tokens, result tokens, rng words)
         self.h = []        # (iv|None, val|None, fin)
         self.x = []        # oracle failures: (prop, msg)
+        self.l = []        # t-digest limit table: (n, q0 bits, limit bits)
+        self.s = []        # scale function calls: (kind, in bits, n, out bits)
 
 def parse_transcript(text):
     cases, cur = [], None
@@ -38,6 +40,12 @@ def parse_transcript(text):
         elif line.startswith('H '):
             t = line.split()
             cur.h.append((None if t[1] == '-' else int(t[1]), None if t[2] == '-' else int(t[2]), int(t[3])))
+        elif line.startswith('L '):
+            t = line.split()
+            cur.l.append((int(t[1]), int(t[2]), int(t[3])))
+        elif line.startswith('S '):
+            t = line.split()
+            cur.s.append((t[1], int(t[2]), int(t[3]), int(t[4])))
         elif line.startswith('X '):
             t = line.split(' ', 2)
             cur.x.append((t[1], t[2] if len(t) > 2 else ''))
@@ -80,6 +88,7 @@ OPC = {
     'res': {'new': 0, 'add': 2, 'clear': 5, 'clone': 6, 'obs': 7},
     'lossy': {'add': 2, 'clear': 5, 'clone': 6, 'obs': 7},
     'heap': {'new': 0, 'add': 2, 'clear': 5, 'clone': 6, 'iter': 7},
+    'td': {'ins': 2, 'quant': 3, 'cdf': 4, 'clear': 5, 'clone': 6, 'count': 8, 'sum': 9, 'mean': 10, 'min': 11, 'max': 12, 'ncent': 13, 'empty': 14},
 }
 
 def f64_dyadic(bits):
@@ -141,6 +150,10 @@ def translate_ops(case, aux):
             if name == 'query':
                 m, e = f64_dyadic(args[1])
                 out.append((ol(3, [args[0], m, e], [], r), k)); continue
+        if case.st == 'td' and name == 'new' and res != ['panic']:
+            out.append((ol(0, [args[0], args[3]], [], 'S 0'), k)); continue
+        if case.st == 'td' and name == 'audit':
+            continue
         if name not in table:
             aux.append((case, k, op, res))
             continue
@@ -157,6 +170,8 @@ def write_model_input(path, cases, aux):
             f.write('C %s %d %d\n' % (c.st, u, mx))
             for iv, v, fin in c.h:
                 f.write('H %d %d %d\n' % (0 if iv is None else iv + 1, 0 if v is None else v + 1, fin))
+            for n_, q0, lm in c.l:
+                f.write('L %d %d %d\n' % (n_, q0, lm))
             ops = translate_ops(c, aux)
             for line, _ in ops:
                 f.write(line + '\n')
